@@ -59,7 +59,7 @@ class StandardQTomographyBasedWeightedProbabilityBasedSquaredError(
             weight matrices, by default None
         """
         if prob_dists_q:
-            self._prob_dists_q_flat = np.array(prob_dists_q, dtype=np.float64).flatten()
+            self._prob_dists_q_flat = np.hstack(prob_dists_q).astype(np.float64)
         self._extend_weight_matrix = None
 
         super().__init__(
@@ -80,11 +80,13 @@ class StandardQTomographyBasedWeightedProbabilityBasedSquaredError(
         # calc the extend weight matrix.
         # if weight_matrices=[W0, W1, W2], then "extend weight matrix"=[[W0, 0, 0], [0, W1, 0], [0, 0, W2]].
         # this is used in the "value" function and "gradient" function for fast computation.
-        zero = np.zeros((self.weight_matrices[0].shape))
-        size = len(self.weight_matrices)
         block_matrix = []
         for index, weight_matrix in enumerate(self.weight_matrices):
-            row = [zero] * size
+            # zero blocks of matching shapes (the weight matrices may have different sizes)
+            row = [
+                np.zeros((weight_matrix.shape[0], other.shape[1]))
+                for other in self.weight_matrices
+            ]
             row[index] = weight_matrix
             block_matrix.append(row)
 
@@ -109,7 +111,7 @@ class StandardQTomographyBasedWeightedProbabilityBasedSquaredError(
         prob_dists_q : List[np.ndarray]
             vectors of ``q``, by default None.
         """
-        self._prob_dists_q_flat = np.array(prob_dists_q, dtype=np.float64).flatten()
+        self._prob_dists_q_flat = np.hstack(prob_dists_q).astype(np.float64)
         super().set_prob_dists_q(prob_dists_q)
 
     def set_func_prob_dists_from_standard_qt(self, qt: StandardQTomography) -> None:
@@ -154,8 +156,8 @@ class StandardQTomographyBasedWeightedProbabilityBasedSquaredError(
         q = self._prob_dists_q_flat
         p = self._matA @ var + self._vecB
         if validate:
-            num_prob_dists = len(self.prob_dists_q)
-            ps = p.reshape((num_prob_dists, -1))
+            sizes = [len(prob_dist) for prob_dist in self.prob_dists_q]
+            ps = np.split(p, np.cumsum(sizes)[:-1])
             for index, prob in enumerate(ps):
                 validate_prob_dist(
                     prob,
@@ -179,8 +181,8 @@ class StandardQTomographyBasedWeightedProbabilityBasedSquaredError(
         q = self._prob_dists_q_flat
         p = self._matA @ var + self._vecB
         if validate:
-            num_prob_dists = len(self.prob_dists_q)
-            ps = p.reshape((num_prob_dists, -1))
+            sizes = [len(prob_dist) for prob_dist in self.prob_dists_q]
+            ps = np.split(p, np.cumsum(sizes)[:-1])
             for index, prob in enumerate(ps):
                 validate_prob_dist(
                     prob,
